@@ -270,6 +270,10 @@ def run(ctx):
             rep.violation("D7-NO-SKIPPED-BYTES", where(f), "codeptr-advance", "%s advances the emission pointer without writing the bytes it steps over (`%s`): "
                           "the emitted function contains stale bytes of the compile buffer, i.e. depends on what was compiled before" % (f.name, unparse(st)[:60]), line=st.line)
     rep.ok("D7-NO-SKIPPED-BYTES", "orc/", "scan", "no emitter advances codeptr without storing (%d offenders); positive control fixtures/codeskip.c as expected" % nsk)
+    # D8: running "the same code" after a reset and recompile means the program's CURRENT code: no stale attach-time copy
+    # of the entry point is used while a program is attached (shared with C06 / C16)
+    import importlib as _il
+    _il.import_module("rules.c06").snapshot_slots(db, rep, "D8-LIVE-CODE")
 
 
 def _codeptr_skips(f):
